@@ -88,6 +88,9 @@ type Unit struct {
 	obls     []*Obl
 	heapSort map[string]string
 	dry      int
+	freshRefs map[string]bool
+	heapPtr  map[string]string // heaps whose cells hold references: "cell" | "mapval" | "arr" | "slicecell" | "slicearr" | "slicemapval"
+	pendingBounds []string
 	dryRows  map[string]map[string]bool
 	dryWhole map[string]bool
 	notes    map[string]bool
@@ -169,6 +172,11 @@ func (u *Unit) heapCur(st *State, name string) string {
 	if !u.enc.declared[q(bn)] {
 		c := u.enc.declConst(bn, srt)
 		u.heapFacts(name, c)
+		if name != "$alloc" {
+			if f := u.boundFact(name, c, u.heapCur(st, "$alloc")); f != "" && u.dry == 0 {
+				u.assumes = append(u.assumes, f)
+			}
+		}
 	}
 	return u.enc.declConst(bn, srt)
 }
@@ -179,6 +187,45 @@ func (u *Unit) heapFacts(name, c string) {
 		ks := strings.TrimPrefix(name, "MD$")
 		u.assumes = append(u.assumes, eq(sel(c, "0"), u.emptySet(ks)))
 	}
+}
+
+// boundFact: every reference stored in heap version c is an allocated one (<= alloc).
+func (u *Unit) boundFact(name, c, alloc string) string {
+	shape, ok := u.heapPtr[name]
+	if !ok {
+		return ""
+	}
+	srt := u.heapSort[name]
+	switch shape {
+	case "cell":
+		return fmt.Sprintf("(forall ((r!b Int)) (! (<= (select %s r!b) %s) :pattern ((select %s r!b))))", c, alloc, c)
+	case "slicecell":
+		return fmt.Sprintf("(forall ((r!b Int)) (! (<= (sl_base (select %s r!b)) %s) :pattern ((select %s r!b))))", c, alloc, c)
+	case "mapval", "arr":
+		ks := arrayDomain(arrayRange(srt))
+		return fmt.Sprintf("(forall ((r!b Int) (k!b %s)) (! (<= (select (select %s r!b) k!b) %s) :pattern ((select (select %s r!b) k!b))))", ks, c, alloc, c)
+	case "slicemapval", "slicearr":
+		ks := arrayDomain(arrayRange(srt))
+		return fmt.Sprintf("(forall ((r!b Int) (k!b %s)) (! (<= (sl_base (select (select %s r!b) k!b)) %s) :pattern ((select (select %s r!b) k!b))))", ks, c, alloc, c)
+	}
+	return ""
+}
+
+// flushBounds: state the allocation bound for heap versions havoced since the last flush.
+func (u *Unit) flushBounds(st *State) {
+	if u.dry > 0 {
+		u.pendingBounds = nil
+		return
+	}
+	alloc := u.heapCur(st, "$alloc")
+	for _, name := range u.pendingBounds {
+		if c, ok := st.heaps[name]; ok {
+			if f := u.boundFact(name, c, alloc); f != "" {
+				u.assume(f)
+			}
+		}
+	}
+	u.pendingBounds = nil
 }
 
 // heapStoreAt: H[idx] := cell, remembering the written row during loop dry runs.
@@ -215,6 +262,7 @@ func (u *Unit) heapHavoc(st *State, name string) string {
 	}
 	if u.dry == 0 {
 		u.heapFacts(name, c)
+		u.pendingBounds = append(u.pendingBounds, name)
 	}
 	return c
 }
@@ -225,7 +273,7 @@ func (u *Unit) havocAll(st *State) {
 	// keep ghost call flags (they only record history)
 	keep := map[string]string{}
 	for k, v := range st.heaps {
-		if strings.HasPrefix(k, "$called:") || strings.HasPrefix(k, "$ret:") || strings.HasPrefix(k, "$defer:") || strings.HasPrefix(k, "$visited:") || strings.HasPrefix(k, "L$") {
+		if strings.HasPrefix(k, "$called:") || strings.HasPrefix(k, "$ret:") || strings.HasPrefix(k, "$first:") || strings.HasPrefix(k, "$defer:") || strings.HasPrefix(k, "$visited:") || strings.HasPrefix(k, "L$") {
 			keep[k] = v
 		}
 	}
@@ -236,12 +284,37 @@ func (u *Unit) havocAll(st *State) {
 	u.assume(app(">=", na, alloc))
 	nc := u.heapHavoc(st, "$clock")
 	u.assume(app(">=", nc, clock))
+	u.flushBounds(st)
+}
+
+func refKind(t types.Type) string {
+	t = types.Unalias(t)
+	if isTime(t) || opaqueStruct(t) {
+		return ""
+	}
+	switch t.Underlying().(type) {
+	case *types.Pointer, *types.Map, *types.Chan:
+		return "ref"
+	case *types.Slice:
+		return "slice"
+	}
+	return ""
+}
+
+func (u *Unit) markPtr(name, shape string, elem types.Type) {
+	switch refKind(elem) {
+	case "ref":
+		u.heapPtr[name] = shape
+	case "slice":
+		u.heapPtr[name] = "slice" + shape
+	}
 }
 
 func (u *Unit) fieldHeap(structT types.Type, i int) (string, types.Type) {
 	st := structT.Underlying().(*types.Struct)
 	f := st.Field(i)
 	name := "H$" + u.enc.structName(structT) + "$" + f.Name()
+	u.markPtr(name, "cell", f.Type())
 	u.regHeap(name, "(Array Int "+u.enc.sortOf(f.Type())+")")
 	return name, f.Type()
 }
@@ -259,6 +332,9 @@ func (u *Unit) cellHeap(t types.Type) string {
 func (u *Unit) arrHeap(elem types.Type) string {
 	s := u.enc.sortOf(elem)
 	name := "A$" + s
+	if s == "Slice" {
+		u.markPtr(name, "arr", elem)
+	}
 	u.regHeap(name, "(Array Int (Array Int "+s+"))")
 	return name
 }
@@ -267,6 +343,7 @@ func (u *Unit) mapHeaps(m *types.Map) (dom, val string, ks, vs string) {
 	ks, vs = u.enc.sortOf(m.Key()), u.enc.sortOf(m.Elem())
 	dom = "MD$" + ks
 	val = "MV$" + ks + "$" + vs
+	u.markPtr(val, "mapval", m.Elem())
 	u.regHeap(dom, "(Array Int (Array "+ks+" Bool))")
 	u.regHeap(val, "(Array Int (Array "+ks+" "+vs+"))")
 	return
@@ -414,6 +491,7 @@ func (u *Unit) newRef(st *State) string {
 	r := u.enc.freshConst("ref", "Int")
 	u.assume(eq(r, app("+", a, "1")))
 	u.heapSet(st, "$alloc", r)
+	u.freshRefs[r] = true
 	return r
 }
 
